@@ -10,6 +10,8 @@ static void honest_gen(Plan *p, uint64_t run_seed, uint64_t variant, int tier)
 	rng_seed(&g, run_seed, 0x401);
 	gen_common(p, &g, tier);
 	gen_rounds(p, &g, tier, tier ? 12 : 6, 50000);
+	/* endpoint tasks preempted inside library code (takes effect in the -if builds only) */
+	if (rng_chance(&g, 1, 2)) p->preempt_mean = (int64_t[]){ 5, 20, 100, 1000 }[rng_below(&g, 4)];
 	/* TLCP clients may run without trust anchors (the tool's -cacert is optional) */
 	if (p->proto == P_TLCP && !p->mutual && rng_chance(&g, 1, 5)) p->cred_mode = 2;
 }
@@ -17,6 +19,7 @@ static void honest_gen(Plan *p, uint64_t run_seed, uint64_t variant, int tier)
 void honest_oracle(const Plan *p, const HonestOut *o, RunResult *r)
 {
 	char why[128];
+	if (o->setup_refused) { rr_violation(r, "hs_incomplete", "the library refused the endpoint configuration"); return; }
 	if (g_sim.step_capped) { rr_violation(r, "deadlock", "step cap reached (%llu steps)", (unsigned long long)g_sim.step); return; }
 	if (o->hs_ret[0] != 1 || o->hs_ret[1] != 1) {
 		rr_violation(r, "hs_incomplete", "proto=%s mutual=%d depth=%d client=%d server=%d quiesced=%d",
